@@ -100,6 +100,27 @@ def main():
         e.CLOCK.now = 123456.0
         warm = [run(p) for p in progs]
         res["outcomes"] = ["same" if a == b else "differs: %s vs %s" % (a[:80], b[:80]) for a, b in zip(cold, warm)]
+    elif mode == "cross":
+        cold = [run(p) for p in progs]
+        out = []
+        for mi, m in enumerate(job.get("mutators", [])):
+            run(m, tl=500, keep=True)
+            for i, p in enumerate(progs):
+                oc = run(p)
+                if oc != cold[i]:
+                    out.append("observer #%d differs after mutator #%d: %s vs %s | %s" % (i, mi, cold[i][:80], oc[:80], m[:80]))
+        rep = job.get("repeated", [])
+        if rep:
+            first = [run(p) for p in rep]
+            for k in range(3000):
+                run("function w%d(a) { function inner%d() { return a } return inner%d() } if (w%d(1)) { function blk%d() { } }" % (k, k, k, k, k))
+            for i, p in enumerate(rep):
+                for k in range(job.get("repeat", 100)):
+                    oc = run(p)
+                    if oc != first[i]:
+                        out.append("evaluation #%d of a repeated program differs: %s vs %s | %s" % (k, first[i][:60], oc[:60], p[:80]))
+                        break
+        res["outcomes"] = out or ["same"]
     print(json.dumps(res))
 
 
